@@ -43,7 +43,10 @@ CONFIG = {
              "numbers / labels, TAXA present or absent, 0-2 CHARACTERS/DATA blocks, SETS, TITLE/LINK, comments, [&R]/[&U] "
              "mixes); (rich) lib/c13_docs.py Newick and NEXUS with [&W a/b] weights, metadata and plain comments in any "
              "order before the tree and between TREE / name / '=', block-opening comments, re-cased labels; (nexml) "
-             "1-3 tree lists of 1-3 trees + 0-2 matrices written by DendroPy's NeXML writer from generated data.  x "
+             "1-3 tree lists of 1-3 trees + 0-2 matrices written by DendroPy's NeXML writer from generated data; (numeric) "
+             "Newick with INTEGER leaf labels (1..n or sparse, in drawn order; labels, never positions, in Newick) read "
+             "into namespaces that are empty or already hold other names / scrambled integers (one shared, or an "
+             "equally pre-populated one per call).  x "
              "reader options accepted by every route of the schema (rooting, preserve_underscores, store_tree_weights, "
              "extract_comment_metadata, suppress_internal_node_taxa, suppress_leaf_node_taxa, "
              "case_sensitive_taxon_labels, suppress_edge_lengths, is_assign_internal_labels_to_edges; NeXML: "
@@ -82,7 +85,8 @@ CONFIG = {
     ],
 }
 
-TOTALS = {"quick": {"docs": 1000, "rich": 1000, "nexml": 320}, "thorough": {"docs": 30000, "rich": 30000, "nexml": 8000}}
+TOTALS = {"quick": {"docs": 1000, "rich": 1000, "nexml": 320, "numeric": 400},
+          "thorough": {"docs": 30000, "rich": 30000, "nexml": 8000, "numeric": 8000}}
 
 KINDS = ("data", "strio", "file", "path")
 MATRIX_CLASS = {"dna": "DnaCharacterMatrix", "rna": "RnaCharacterMatrix", "protein": "ProteinCharacterMatrix",
@@ -169,6 +173,15 @@ def rich_cases(draw, large=False):
     if doc["features"]["weight"] and want_weights:
         opts["store_tree_weights"] = True
     return {"doc": doc, "opts": fit_options(doc, opts), "plan": plan}
+
+
+@st.composite
+def numeric_cases(draw, large=False):
+    plan = draw(plans())
+    plan["prior"] = draw(c13_docs.prior_labels())
+    opts = draw(newick_options())
+    doc = draw(c13_docs.numeric_newick_docs(max_taxa=6, max_trees=4 if not large else 8))
+    return {"doc": doc, "opts": opts, "plan": plan}
 
 
 @st.composite
@@ -319,7 +332,8 @@ class Run(object):
         self.base = None
 
     def where(self):
-        return "schema=%s opts=%r shared=%r text=%r" % (self.schema, self.opts, self.plan["shared"], self.text[:1500])
+        return "schema=%s opts=%r shared=%r prior=%r text=%r" % (self.schema, self.opts, self.plan["shared"],
+                                                                 self.plan.get("prior"), self.text[:1500])
 
     def call(self, route, fn):
         """A non-base route: any exception out of the library is a violation (the base route read the document)."""
@@ -338,13 +352,21 @@ class Run(object):
             raise
 
     def nskw(self):
-        return {"taxon_namespace": self.shared} if self.shared is not None else {}
+        if self.shared is not None:
+            return {"taxon_namespace": self.shared}
+        if self.plan.get("prior"):
+            # every call reads into its OWN namespace that already holds the same other taxa
+            return {"taxon_namespace": self.new_namespace()}
+        return {}
 
     def new_namespace(self):
         """A namespace for a container that is read INTO: a case-sensitive read needs a case-sensitive namespace
-        (NexusTaxonSymbolMapper refuses the mismatch by design)."""
+        (NexusTaxonSymbolMapper refuses the mismatch by design).  plan["prior"]: labels it holds beforehand."""
         import dendropy
-        return dendropy.TaxonNamespace(is_case_sensitive=bool(self.opts.get("case_sensitive_taxon_labels")))
+        ns = dendropy.TaxonNamespace(is_case_sensitive=bool(self.opts.get("case_sensitive_taxon_labels")))
+        for label in self.plan.get("prior") or []:
+            ns.new_taxon(label=label)
+        return ns
 
     def target_ns(self):
         return self.shared if self.shared is not None else self.new_namespace()
@@ -572,7 +594,7 @@ def _check(run):
         ctx.cls("skipped:comment_glued_to_quoted_token(C20)")
         return
     ctx.cls("schema:%s" % schema)
-    ctx.cls("mode:%s" % ("shared" if plan["shared"] else "fresh"))
+    ctx.cls("mode:%s%s" % ("shared" if plan["shared"] else "fresh", ":prepopulated" if plan.get("prior") else ""))
 
     # -- base route ------------------------------------------------------------------------------------------------
     base_list, err = attempt(lambda: dendropy.TreeList.get(data=text, schema=schema, **dict(run.nskw(), **opts)))
@@ -797,7 +819,7 @@ def _check(run):
     for o in sorted(opts):
         ctx.cls("opt:%s=%s" % (o, opts[o]))
     if n >= 2 and (feats.get("translate") or feats.get("comment") or feats.get("weight") or feats["blocks"] >= 2):
-        ctx.nontrivial([text, sorted(opts.items()), plan["shared"]])
+        ctx.nontrivial([text, sorted(opts.items()), plan["shared"], plan.get("prior")])
         ctx.cls("nontrivial")
     ctx.sample("%s:%dblocks%s%s" % (schema, len(sizes), ":translate" if feats.get("translate") else "",
                                   ":weight" if feats.get("weight") else ""), {"text": text, "opts": opts})
@@ -875,7 +897,7 @@ def check_tree_array(run, n, sizes):
                          i, type(err).__name__, err, run.where()))
 
 
-SUBCHECKS = {"docs": check_case, "rich": check_case, "nexml": check_case}
+SUBCHECKS = {"docs": check_case, "rich": check_case, "nexml": check_case, "numeric": check_case}
 
 
 def run(ctx):
@@ -887,3 +909,4 @@ def run(ctx):
     runner.run_given(ctx, "nexml", nexml_cases(large=not quick), check_case, tot["nexml"] // n)
     runner.run_given(ctx, "docs", doc_cases(large=not quick), check_case, tot["docs"] // n)
     runner.run_given(ctx, "rich", rich_cases(large=not quick), check_case, tot["rich"] // n)
+    runner.run_given(ctx, "numeric", numeric_cases(large=not quick), check_case, tot["numeric"] // n)
